@@ -410,7 +410,80 @@ func runC07(c *Ctx) error {
 			}
 		}
 	}
+	if err := c07ReplayAcrossKinds(c); err != nil {
+		return err
+	}
 	return c07ConcurrentReplay(c)
+}
+
+// c07ReplayAcrossKinds: "newest message of X" is ONE order over everything X signs.  X's
+// announcement is accepted (relayed by the peer P1 with its hop record); then a newer ping of
+// another kind from X (a going-down disconnect, a pong request, an error report); then the very
+// same announcement bytes again: the replay changes nothing - the offline flag stays, the route
+// the disconnect removed stays away, the stored info stays.
+func c07ReplayAcrossKinds(c *Ctx) error {
+	for r, n := 0, c.Pick(6, 30); r < n; r++ {
+		e, err := newCtlEnv(c, false)
+		if err != nil {
+			return err
+		}
+		X, err := newGeoIdentity()
+		if err != nil {
+			return err
+		}
+		self := e.R.id.IP
+		recv := e.R.links[e.P1.id.IP]
+		a, err := c08NewAnn(X, false, 9, time.Now().Add(time.Hour))
+		if err != nil {
+			return err
+		}
+		chain := []c08Rec{{pub: e.P1.id.PublicAddress, delay: 5, fl: 3, rl: 4, signKey: e.P1.id.PrivateKey, ctx: a.ctx, flipAt: -1}}
+		ann := append(append([]byte(nil), a.base...), c08Encode(chain)...)
+		e.R.inject(append([]byte(nil), ann...), recv)
+		e.w.queue = nil
+		// a newer ping of another kind from X
+		kind := r % 3
+		spec := pingSpec{from: X, dst: self, msgType: frame.RouterPing, seqTime: nextCraftTime(), pingID: uint64(7000 + r)}
+		desc := ""
+		switch kind {
+		case 0:
+			spec.pingType = "disconnect"
+			spec.body, _ = cbor.Marshal(&router.DisconnectPingMsg{GoingDown: true})
+			desc = "going-down disconnect"
+		case 1:
+			spec.pingType = "pong"
+			spec.body, _ = cbor.Marshal(map[string]string{"msg": "ping"})
+			desc = "pong request"
+		default:
+			spec.pingType = "error"
+			spec.pingCode = 2
+			spec.body, _ = cbor.Marshal("x")
+			desc = "error report"
+		}
+		d, err := craftPing(spec)
+		if err != nil {
+			return err
+		}
+		e.R.inject(d, recv)
+		e.w.queue = nil
+		pre, _ := e.snapshot()
+		res := e.R.inject(append([]byte(nil), ann...), recv)
+		forwarded := len(e.w.queue)
+		e.w.queue = nil
+		post, _ := e.snapshot()
+		c.Eval()
+		c.Count("replay-across-kinds:" + desc)
+		c.NonTrivial("replay-across-kinds/" + desc)
+		rep := map[string]any{"newer_ping": desc, "pre": pre, "post": post, "forwarded": forwarded}
+		if res.panicked() {
+			c.Violate("a replayed announcement crashed the handler", "replay-panic", rep)
+		}
+		if stripFresh(pre) != stripFresh(post) || forwarded > 0 {
+			c.Violate(fmt.Sprintf("an announcement of X replayed after a newer %s of X changed router state or was forwarded (%d frames)", desc, forwarded), "unauth-effect-replay-across-kinds", rep)
+			break
+		}
+	}
+	return nil
 }
 
 // c07ConcurrentReplay: a signed ping and its byte-exact replay reach two frame handler workers
